@@ -15,7 +15,10 @@ def _dispatch(prop: str, tier: str):
         return breaker.check(prop, tier)
     if prop == "C07":
         from . import breaker, policycheck
-        return policycheck.check("C07", tier, breaker.check("C07", tier))
+        rep = policycheck.check("C07", tier, breaker.check("C07", tier, light=True))
+        from . import conccheck
+        conccheck.check_into(rep, tier)
+        return rep
     if prop == "C10":
         from . import budget, retrycheck
         comp = budget.check(tier)
